@@ -307,7 +307,19 @@ func opCreateConsumer(w *World) *Op {
 		chainID = "dorm-1" // the default initial height has revision 1
 	}
 	w.Op("create-consumer owner=%s chain=%s spawn=%s", owner.Name, chainID, cls)
-	return one("create-consumer", owner, MsgCreateConsumer(owner, chainID, ip, ps, inf))
+	op := one("create-consumer", owner, MsgCreateConsumer(owner, chainID, ip, ps, inf))
+	// often some validators opt in right away (same block, after the creation), so that the launch can succeed
+	if n, ok := w.P.PApp.ProviderKeeper.GetConsumerId(w.P.Ctx()); (ok || n == 0) && w.Rnd.Intn(3) != 0 {
+		id := fmt.Sprint(n + uint64(w.createsThisStep))
+		for _, i := range w.Rnd.Perm(len(w.Vals))[:1+w.Rnd.Intn(3)] {
+			v := w.Vals[i]
+			if v.Created {
+				op.Specs = append(op.Specs, TxSpec{Signer: v.Oper, Msgs: []sdk.Msg{MsgOptIn(v, id, nil)}, Tag: "opt-in"})
+			}
+		}
+	}
+	w.createsThisStep++
+	return op
 }
 
 func opUpdateConsumer(w *World) *Op {
@@ -359,6 +371,32 @@ func opUpdateConsumer(w *World) *Op {
 	w.Op("update-consumer %s by %s: %s", ci.ID, ci.Owner.Name, what)
 	op := one("update-consumer", ci.Owner, msg)
 	op.Specs[0].Tag = "update-consumer:" + what
+	return op
+}
+
+// opInfraction requests an infraction-parameter change: partial, repeated, equal to the current values (cancelling) ...
+func opInfraction(w *World) *Op {
+	ci := w.randConsumer(providertypes.CONSUMER_PHASE_LAUNCHED, providertypes.CONSUMER_PHASE_LAUNCHED, providertypes.CONSUMER_PHASE_INITIALIZED)
+	if ci == nil || ci.Owner == nil {
+		return nil
+	}
+	var ip *providertypes.InfractionParameters
+	what := ""
+	switch w.Rnd.Intn(5) {
+	case 0: // equal to the values in force: cancels a pending change
+		cur, err := w.P.PApp.ProviderKeeper.GetInfractionParameters(w.P.Ctx(), ci.ID)
+		if err != nil {
+			return nil
+		}
+		ip, what = &cur, "equal-to-current"
+	case 1:
+		ip, what = w.randInfraction(false), "full"
+	default:
+		ip, what = w.randInfraction(true), "maybe-partial"
+	}
+	w.Op("update-consumer %s by %s: infraction (%s)", ci.ID, ci.Owner.Name, what)
+	op := one("update-consumer", ci.Owner, &providertypes.MsgUpdateConsumer{Owner: ci.Owner.Addr.String(), ConsumerId: ci.ID, InfractionParameters: ip})
+	op.Specs[0].Tag = "update-consumer:infraction"
 	return op
 }
 
